@@ -36,7 +36,7 @@ class Obs:
     """Observation of one step on a connection."""
     __slots__ = ("kind", "exc", "exc_name", "code", "is_h2", "is_proto",
                  "where", "frames", "raw", "events", "ret", "wire_error", "msg",
-                 "blocks")
+                 "blocks", "via_fsm")
 
     def __init__(self):
         self.kind = "ok"
@@ -53,6 +53,7 @@ class Obs:
         self.wire_error = None
         self.msg = None
         self.blocks = []
+        self.via_fsm = False       # the exception was raised inside a state machine's process_input
 
     def frame_names(self):
         return [f.name for f in self.frames]
@@ -80,6 +81,7 @@ def _fill_exc(o, e):
     o.is_proto = isinstance(e, ProtocolError)
     o.code = getattr(e, "error_code", None) if o.is_proto else None
     o.where = innermost_h2(e)
+    o.via_fsm = any(fs.name == "process_input" for fs in traceback.extract_tb(e.__traceback__))
     try:
         o.msg = str(e)
     except Exception:
